@@ -50,7 +50,8 @@ void build_stream(const Plan &plan, StreamRef &sr) {
     Link &l = *sr.ps.links[i]; int64_t go = 0;
     if ((l.r.cut || l.r.bs64) && !l.audio.empty()) go = std::max<int64_t>(0, l.audio.back().granule - l.len);
     sr.goff.push_back(go);
-    if (l.r.cut) { int ap = 0; for (auto &p : sr.ps.pages) if (p.link == i && !p.header) ap++; if (ap < 2) sr.ambiguous_cut = true; }
+    if (l.r.bs64) { bool ok2 = false; for (auto &p : sr.ps.pages) if (p.link == i && !p.header) { ok2 = p.completed >= 2; break; } if (!ok2) sr.ambiguous_cut = true; }
+    if (l.r.cut || l.r.bs64) { int ap = 0; for (auto &p : sr.ps.pages) if (p.link == i && !p.header) ap++; if (ap < 2) sr.ambiguous_cut = true; }
   }
   for (auto &p : sr.ps.pages) if (p.link >= 0 && !p.header && p.granule >= 0) sr.boundaries.push_back(sr.start[p.link] + std::max<int64_t>(0, std::min<int64_t>(p.granule - sr.goff[p.link], sr.ps.links[p.link]->len)));
   std::sort(sr.boundaries.begin(), sr.boundaries.end());
